@@ -134,3 +134,24 @@ def run(ctx):
         "numpy shuffle = uniform permutation (enumerated as all n! permutations)",
         "urn model of sentinel shuffle (Model/Perm.v header)",
     ]
+
+
+def _tup(x):
+    return tuple(_tup(y) for y in x) if isinstance(x, list) else x
+
+
+def replay(ctx, doc):
+    """./check C09 --replay file: re-run the recorded tree."""
+    rp = doc.get("replay", {})
+    if "tree" not in rp:
+        ctx.log("nothing to replay in this file")
+        print(doc)
+        return
+    spec = _tup(rp["tree"])
+    vals = rational_values(ctx.rng, max(spec_points(spec)) + 1, 1, 3)
+    spec, dist, npaths, log_pdf, brute = _one_tree((spec, vals))
+    nb = len(brute)
+    ctx.case(key="replay", nontrivial=True, sample={"tree": spec, "orders": nb, "log_pdf": log_pdf})
+    ctx.log("replayed tree %r: %d compatible orders, %d drawn, log_pdf %.6f (expected %.6f)" % (spec, nb, len(dist), log_pdf, -math.log(nb)))
+    if set(dist) != set(brute) or max(abs(p - 1.0 / nb) for p in dist.values()) > 1e-9 or abs(log_pdf + math.log(nb)) > 1e-9:
+        ctx.fail(doc.get("key", "C09:replay"), "replayed tree still fails", rp)
